@@ -1,3 +1,255 @@
-import Snmp.Model.Ber
+/-
+  C05 — every emitted datagram is the intended request under an independent decoder.
+  Impl side: `Snmp.Ber` encoders (the x690 mirror) and `Snmp.Emit`; spec side: `Snmp.Spec` reader.
+  Domain (explicit, decidable): OIDs with at least two arcs whose first two arcs fit the first
+  octet the way x690 packs them (`OidDom`), datagrams shorter than 256^126 octets (`Small`).
+-/
+import Snmp.Lemmas.SpecVal
+import Snmp.Model.Emit
 namespace Snmp.Props.C05
+open Snmp Snmp.Ber Snmp.Spec
+
+/-- every length the library writes is read back, whatever follows -/
+theorem C05_len_roundtrip (n : Nat) (hn : Small n) (rest : Bytes) :
+    readLength (encodeLength n ++ rest) = some (n, rest) := readLength_encodeLength n hn rest
+
+/-- every integer (request ids far beyond today's clock values included) -/
+theorem C05_int_roundtrip (v : Int) : readInt (intEncode v) = some v := readInt_intEncode v
+
+/-- every OID of the domain: later sub-identifiers unbounded, any number of arcs -/
+theorem C05_oid_roundtrip (o : Oid) (h : OidDom o) : ∃ bs, oidEncode o = some bs ∧ readOid bs = some o :=
+  readOid_oidEncode o h
+
+/-- every SET value kind over its full range -/
+theorem C05_value_roundtrip (v : Val) (hv : SetVal v) (bs : Bytes) (he : encodeVal v = some bs)
+    (hs : Small bs.length) (rest : Bytes) :
+    ∃ t c, readTLV (bs ++ rest) = some (t, c, rest) ∧ readVal t c = some v := by
+  rcases encodeVal_read v hv (fun b hb => by rw [he] at hb; cases hb; exact hs) with ⟨t, c, h1, h2, h3⟩
+  rw [he] at h1; cases h1
+  exact ⟨t, c, readTLV_tlv t c rest h2, h3⟩
+
+def ReqOk (vbs : List VarBind) : Prop := ∀ vb ∈ vbs, BindOk vb
+
+/-- PDU framing: request-id of any size, the two integer fields, the caller's bindings in order -/
+theorem C05_pdu (cls : String) (rid a b : Int) (vbs : List VarBind) (hv : ReqOk vbs) (bs : Bytes)
+    (he : encodePdu cls rid a b vbs = some bs) (hs : Small bs.length) (rest : Bytes) :
+    ∃ c, readTLV (bs ++ rest) = some (tagOf cls, c, rest) ∧ readPdu (tagOf cls) c = some ⟨tagOf cls, rid, a, b, vbs⟩ := by
+  have hvb : ∃ vb, encodeVarBinds vbs = some vb := by
+    cases h : encodeVarBinds vbs with
+    | none => simp [encodePdu, h] at he
+    | some x => exact ⟨x, rfl⟩
+  rcases hvb with ⟨vbb, hvbb⟩
+  have hbs : bs = Ber.tlv (tagOf cls) (Ber.tlv 2 (intEncode rid) ++ (Ber.tlv 2 (intEncode a) ++ (Ber.tlv 2 (intEncode b) ++ vbb))) := by
+    simp [encodePdu, hvbb] at he; exact he.symm
+  have hcont : Small (Ber.tlv 2 (intEncode rid) ++ (Ber.tlv 2 (intEncode a) ++ (Ber.tlv 2 (intEncode b) ++ vbb))).length :=
+    Small.mono (Nat.le_of_lt (by rw [hbs]; exact tlv_length _ _)) hs
+  rcases encodeVarBinds_read vbs hv (fun x hx => by
+    rw [hvbb] at hx; cases hx
+    exact Small.mono (by simp only [List.length_append]; omega) hcont) with ⟨c, hc1, hc2, items, hi1, hi2⟩
+  have hvbbc : vbb = Ber.tlv 48 c := by rw [hvbb] at hc1; exact Option.some.inj hc1
+  refine ⟨_, by rw [hbs]; exact readTLV_tlv _ _ rest hcont, ?_⟩
+  have hsm : ∀ x : Int, Small (intEncode x).length → True := fun _ _ => trivial
+  have hr : Small (intEncode rid).length := Small.mono (by simp only [List.length_append, Ber.tlv, List.length_cons]; omega) hcont
+  have ha : Small (intEncode a).length := Small.mono (by simp only [List.length_append, Ber.tlv, List.length_cons]; omega) hcont
+  have hb : Small (intEncode b).length := Small.mono (by simp only [List.length_append, Ber.tlv, List.length_cons]; omega) hcont
+  have hseq : readSeq (Ber.tlv 2 (intEncode rid) ++ (Ber.tlv 2 (intEncode a) ++ (Ber.tlv 2 (intEncode b) ++ vbb)))
+      = some [(2, intEncode rid), (2, intEncode a), (2, intEncode b), (48, c)] := by
+    have := readSeq_concat [(2, intEncode rid), (2, intEncode a), (2, intEncode b), (48, c)] (by
+      intro p hp; simp at hp
+      rcases hp with rfl | rfl | rfl | rfl
+      · exact hr
+      · exact ha
+      · exact hb
+      · exact hc2)
+    simpa [hvbbc] using this
+  unfold readPdu
+  rw [hseq]
+  simp [hi1, hi2, readInt_intEncode]
+
+/-- v1 / v2c: version, community, and the PDU — nothing else in the datagram -/
+theorem C05_community_request (version : Int) (comm : Bytes) (r : Ops.PduReq) (hv : ReqOk r.varbinds)
+    (dg : Bytes) (he : Emit.community version comm r = some dg) (hs : Small dg.length) :
+    readCommunityMsg dg = some ⟨version, comm,
+      ⟨tagOf (Emit.pduClass r.kind), r.requestId, r.a, r.b, r.varbinds⟩⟩ := by
+  have hp : ∃ pb, Emit.pduBytes r = some pb := by
+    cases h : Emit.pduBytes r with
+    | none => simp [Emit.community, h] at he
+    | some x => exact ⟨x, rfl⟩
+  rcases hp with ⟨pb, hpb⟩
+  have hdg : dg = Ber.tlv 48 (Ber.tlv 2 (intEncode version) ++ (Ber.tlv 4 comm ++ pb)) := by
+    simp [Emit.community, hpb, encodeCommunityMsg] at he; exact he.symm
+  have hcont : Small (Ber.tlv 2 (intEncode version) ++ (Ber.tlv 4 comm ++ pb)).length :=
+    Small.mono (Nat.le_of_lt (by rw [hdg]; exact tlv_length _ _)) hs
+  have hpbs : Small pb.length := Small.mono (by simp only [List.length_append]; omega) hcont
+  rcases C05_pdu _ _ _ _ _ hv pb hpb hpbs [] with ⟨c, hc1, hc2⟩
+  simp only [List.append_nil] at hc1
+  -- pb is one TLV
+  have hpbtlv : pb = Ber.tlv (tagOf (Emit.pduClass r.kind)) c := by
+    have hvb : ∃ vb, encodeVarBinds r.varbinds = some vb := by
+      cases h : encodeVarBinds r.varbinds with
+      | none => simp [Emit.pduBytes, encodePdu, h] at hpb
+      | some x => exact ⟨x, rfl⟩
+    rcases hvb with ⟨vbb, hvbb⟩
+    have e1 : pb = Ber.tlv (tagOf (Emit.pduClass r.kind)) (Ber.tlv 2 (intEncode r.requestId) ++ (Ber.tlv 2 (intEncode r.a) ++ (Ber.tlv 2 (intEncode r.b) ++ vbb))) := by
+      simp [Emit.pduBytes, encodePdu, hvbb] at hpb; exact hpb.symm
+    rw [e1] at hc1
+    have hsm : Small (Ber.tlv 2 (intEncode r.requestId) ++ (Ber.tlv 2 (intEncode r.a) ++ (Ber.tlv 2 (intEncode r.b) ++ vbb))).length :=
+      Small.mono (Nat.le_of_lt (by rw [e1]; exact tlv_length _ _)) hpbs
+    have := readTLV_tlv (tagOf (Emit.pduClass r.kind)) _ [] hsm
+    simp only [List.append_nil] at this
+    rw [this] at hc1
+    simp at hc1
+    rw [e1, hc1]
+  have hcs : Small c.length := Small.mono (Nat.le_of_lt (by rw [hpbtlv]; exact tlv_length _ _)) hpbs
+  unfold readCommunityMsg
+  have h1 := readTLV_tlv 48 (Ber.tlv 2 (intEncode version) ++ (Ber.tlv 4 comm ++ pb)) [] hcont
+  simp only [List.append_nil] at h1
+  rw [hdg, h1]
+  have hseq : readSeq (Ber.tlv 2 (intEncode version) ++ (Ber.tlv 4 comm ++ pb))
+      = some [(2, intEncode version), (4, comm), (tagOf (Emit.pduClass r.kind), c)] := by
+    have := readSeq_concat [(2, intEncode version), (4, comm), (tagOf (Emit.pduClass r.kind), c)] (by
+      intro p hp; simp at hp
+      rcases hp with rfl | rfl | rfl
+      · exact Small.mono (by simp only [List.length_append, Ber.tlv, List.length_cons]; omega) hcont
+      · exact Small.mono (by simp only [List.length_append, Ber.tlv, List.length_cons]; omega) hcont
+      · exact hcs)
+    simpa [hpbtlv] using this
+  simp [hseq, readInt_intEncode, hc2]
+
+/-- SNMPv3: header (message id, max size, flags, security model 3), USM security parameters
+    (engine id, boots, time, user, authentication and privacy parameters) and the msgData field
+    (scoped PDU sequence, or the ciphertext OCTET STRING) are read back — nothing else is in the
+    datagram. -/
+theorem C05_v3_request (p : Emit.V3Params) (dt : Nat) (d : Bytes)
+    (hs : Small (Emit.v3Around p (Ber.tlv dt d)).length) :
+    readV3Msg (Emit.v3Around p (Ber.tlv dt d)) =
+      some ⟨p.msgId, p.maxSize, p.flags, 3, p.engineId, p.boots, p.time, p.user, p.authParams, p.privParams, dt, d⟩ := by
+  -- abbreviations for the three inner structures
+  let hdrC := Ber.tlv 2 (intEncode p.msgId) ++ (Ber.tlv 2 (intEncode p.maxSize) ++ (Ber.tlv 4 [p.flags] ++ Ber.tlv 2 (intEncode 3)))
+  let spC := Ber.tlv 4 p.engineId ++ (Ber.tlv 2 (intEncode p.boots) ++ (Ber.tlv 2 (intEncode p.time) ++
+    (Ber.tlv 4 p.user ++ (Ber.tlv 4 p.authParams ++ Ber.tlv 4 p.privParams))))
+  let outerC := Ber.tlv 2 (intEncode 3) ++ (Ber.tlv 48 hdrC ++ (Ber.tlv 4 (Ber.tlv 48 spC) ++ Ber.tlv dt d))
+  have hdg : Emit.v3Around p (Ber.tlv dt d) = Ber.tlv 48 outerC := by
+    simp [Emit.v3Around, encodeV3Msg, encodeHeader, encodeUsmParams, outerC, hdrC, spC]
+  rw [hdg] at hs ⊢
+  have hO : Small outerC.length := Small.mono (Nat.le_of_lt (tlv_length _ _)) hs
+  have le_tlv : ∀ t (c : Bytes), c.length ≤ (Ber.tlv t c).length := fun t c => Nat.le_of_lt (tlv_length t c)
+  have hH : Small hdrC.length := Small.mono (by
+    have := le_tlv 48 hdrC; simp only [outerC, List.length_append]; omega) hO
+  have hSPt : Small (Ber.tlv 48 spC).length := Small.mono (by
+    have := le_tlv 4 (Ber.tlv 48 spC); simp only [outerC, List.length_append]; omega) hO
+  have hSP : Small spC.length := Small.mono (le_tlv 48 spC) hSPt
+  have hD : Small d.length := Small.mono (by
+    have := le_tlv dt d; simp only [outerC, List.length_append]; omega) hO
+  have h3 : Small (intEncode 3).length := Small.mono (by
+    have := le_tlv 2 (intEncode 3); simp only [outerC, List.length_append]; omega) hO
+  unfold readV3Msg
+  have h1 := readTLV_tlv 48 outerC [] hO
+  simp only [List.append_nil] at h1
+  rw [h1]
+  have hseqO : readSeq outerC = some [(2, intEncode 3), (48, hdrC), (4, Ber.tlv 48 spC), (dt, d)] := by
+    have := readSeq_concat [(2, intEncode 3), (48, hdrC), (4, Ber.tlv 48 spC), (dt, d)] (by
+      intro q hq; simp at hq
+      rcases hq with rfl | rfl | rfl | rfl
+      · exact h3
+      · exact hH
+      · exact hSPt
+      · exact hD)
+    simpa [outerC] using this
+  have hseqH : readSeq hdrC = some [(2, intEncode p.msgId), (2, intEncode p.maxSize), (4, [p.flags]), (2, intEncode 3)] := by
+    have := readSeq_concat [(2, intEncode p.msgId), (2, intEncode p.maxSize), (4, [p.flags]), (2, intEncode 3)] (by
+      intro q hq; simp at hq
+      rcases hq with rfl | rfl | rfl | rfl
+      · exact Small.mono (by have := le_tlv 2 (intEncode p.msgId); simp only [hdrC, List.length_append]; omega) hH
+      · exact Small.mono (by have := le_tlv 2 (intEncode p.maxSize); simp only [hdrC, List.length_append]; omega) hH
+      · simp [Small]
+      · exact h3)
+    simpa [hdrC] using this
+  have hseqS : readSeq spC = some [(4, p.engineId), (2, intEncode p.boots), (2, intEncode p.time), (4, p.user),
+      (4, p.authParams), (4, p.privParams)] := by
+    have := readSeq_concat [(4, p.engineId), (2, intEncode p.boots), (2, intEncode p.time), (4, p.user),
+      (4, p.authParams), (4, p.privParams)] (by
+      intro q hq; simp at hq
+      rcases hq with rfl | rfl | rfl | rfl | rfl | rfl
+      · exact Small.mono (by have := le_tlv 4 p.engineId; simp only [spC, List.length_append]; omega) hSP
+      · exact Small.mono (by have := le_tlv 2 (intEncode p.boots); simp only [spC, List.length_append]; omega) hSP
+      · exact Small.mono (by have := le_tlv 2 (intEncode p.time); simp only [spC, List.length_append]; omega) hSP
+      · exact Small.mono (by have := le_tlv 4 p.user; simp only [spC, List.length_append]; omega) hSP
+      · exact Small.mono (by have := le_tlv 4 p.authParams; simp only [spC, List.length_append]; omega) hSP
+      · exact Small.mono (by have := le_tlv 4 p.privParams; simp only [spC, List.length_append]; omega) hSP)
+    simpa [spC] using this
+  have hsp := readTLV_tlv 48 spC [] hSP
+  simp only [List.append_nil] at hsp
+  simp [hseqO, hseqH, hsp, hseqS, readInt_intEncode]
+
+/-- the scoped PDU inside: context engine id, context name and the request PDU -/
+theorem C05_v3_scoped (p : Emit.V3Params) (r : Ops.PduReq) (hv : ReqOk r.varbinds) (sb : Bytes)
+    (he : Emit.scopedBytes p r = some sb) (hs : Small sb.length) :
+    ∃ c, sb = Ber.tlv 48 c ∧ readScoped c = some ⟨p.ctxEngine, p.ctxName,
+      ⟨tagOf (Emit.pduClass r.kind), r.requestId, r.a, r.b, r.varbinds⟩⟩ := by
+  have hp : ∃ pb, Emit.pduBytes r = some pb := by
+    cases h : Emit.pduBytes r with
+    | none => simp [Emit.scopedBytes, h] at he
+    | some x => exact ⟨x, rfl⟩
+  rcases hp with ⟨pb, hpb⟩
+  have hsb : sb = Ber.tlv 48 (Ber.tlv 4 p.ctxEngine ++ (Ber.tlv 4 p.ctxName ++ pb)) := by
+    simp [Emit.scopedBytes, hpb, encodeScoped] at he; exact he.symm
+  have hcont : Small (Ber.tlv 4 p.ctxEngine ++ (Ber.tlv 4 p.ctxName ++ pb)).length :=
+    Small.mono (Nat.le_of_lt (by rw [hsb]; exact tlv_length _ _)) hs
+  have hpbs : Small pb.length := Small.mono (by simp only [List.length_append]; omega) hcont
+  rcases C05_pdu _ _ _ _ _ hv pb hpb hpbs [] with ⟨c, hc1, hc2⟩
+  simp only [List.append_nil] at hc1
+  have hpbtlv : pb = Ber.tlv (tagOf (Emit.pduClass r.kind)) c := by
+    have hvb : ∃ vb, encodeVarBinds r.varbinds = some vb := by
+      cases h : encodeVarBinds r.varbinds with
+      | none => simp [Emit.pduBytes, encodePdu, h] at hpb
+      | some x => exact ⟨x, rfl⟩
+    rcases hvb with ⟨vbb, hvbb⟩
+    have e1 : pb = Ber.tlv (tagOf (Emit.pduClass r.kind)) (Ber.tlv 2 (intEncode r.requestId) ++ (Ber.tlv 2 (intEncode r.a) ++ (Ber.tlv 2 (intEncode r.b) ++ vbb))) := by
+      simp [Emit.pduBytes, encodePdu, hvbb] at hpb; exact hpb.symm
+    rw [e1] at hc1
+    have hsm : Small (Ber.tlv 2 (intEncode r.requestId) ++ (Ber.tlv 2 (intEncode r.a) ++ (Ber.tlv 2 (intEncode r.b) ++ vbb))).length :=
+      Small.mono (Nat.le_of_lt (by rw [e1]; exact tlv_length _ _)) hpbs
+    have := readTLV_tlv (tagOf (Emit.pduClass r.kind)) _ [] hsm
+    simp only [List.append_nil] at this
+    rw [this] at hc1
+    simp at hc1
+    rw [e1, hc1]
+  have hcs : Small c.length := Small.mono (Nat.le_of_lt (by rw [hpbtlv]; exact tlv_length _ _)) hpbs
+  refine ⟨_, hsb, ?_⟩
+  unfold readScoped
+  have hseq : readSeq (Ber.tlv 4 p.ctxEngine ++ (Ber.tlv 4 p.ctxName ++ pb))
+      = some [(4, p.ctxEngine), (4, p.ctxName), (tagOf (Emit.pduClass r.kind), c)] := by
+    have := readSeq_concat [(4, p.ctxEngine), (4, p.ctxName), (tagOf (Emit.pduClass r.kind), c)] (by
+      intro q hq; simp at hq
+      rcases hq with rfl | rfl | rfl
+      · exact Small.mono (by simp only [List.length_append, Ber.tlv, List.length_cons]; omega) hcont
+      · exact Small.mono (by simp only [List.length_append, Ber.tlv, List.length_cons]; omega) hcont
+      · exact hcs)
+    simpa [hpbtlv] using this
+  simp [hseq, hc2]
+
+/-- Each API operation builds exactly the intended record: PDU type per operation, the single
+    clock value as request-id, zero error fields (or non-repeaters / max-repetitions), the caller's
+    OIDs in order bound to NULL, or the caller's typed SET values. -/
+theorem C05_request_of_op (proto : Ops.Proto) (rid : Int) (oids scalars reps : List Oid)
+    (mappings : List VarBind) (maxList : Int) :
+    (Ops.multiget proto oids).request rid = ⟨.get, rid, 0, 0, oids.map (·, Val.null)⟩ ∧
+    (Ops.multigetnext proto oids).request rid = ⟨.getnext, rid, 0, 0, oids.map (·, Val.null)⟩ ∧
+    (Ops.multiset proto mappings).request rid = ⟨.set, rid, 0, 0, mappings⟩ ∧
+    (Ops.bulkget proto scalars reps maxList).request rid =
+      ⟨.getbulk, rid, scalars.length, maxList, (scalars ++ reps).map (·, Val.null)⟩ ∧
+    tagOf (Emit.pduClass .get) = 160 ∧ tagOf (Emit.pduClass .getnext) = 161 ∧
+    tagOf (Emit.pduClass .set) = 163 ∧ tagOf (Emit.pduClass .getbulk) = 165 := by
+  obtain ⟨h0, h1, _, h3, h5, _⟩ := pdu_tag_facts
+  refine ⟨rfl, rfl, rfl, rfl, h0, h1, h3, h5⟩
+
+/- non-vacuity: the hypotheses are met by an ordinary request -/
+example : ReqOk [([1, 3, 6, 1, 2, 1], .null), ([1, 3, 6, 1, 4, 1, 4294967295], .str [104, 105])] := by
+  intro vb hvb
+  simp at hvb
+  rcases hvb with rfl | rfl
+  · exact ⟨⟨1, 3, [6, 1, 2, 1], rfl, by omega, by omega⟩, trivial⟩
+  · exact ⟨⟨1, 3, [6, 1, 4, 1, 4294967295], rfl, by omega, by omega⟩, by simp [SetVal, Small]⟩
+
 end Snmp.Props.C05
